@@ -11,6 +11,7 @@ LEVELS = {
     "C18": "other",
     "C19": "other",
     "C03": "proof",
+    "C08": "other",
 }
 EXPLAIN = {}
 TRUSTED = [
